@@ -12,7 +12,9 @@ from scrapli.logging import get_instance_logger
 from scrapli.transport.base import AsyncTransport, Transport
 
 ANSI_ESCAPE_PATTERN = re.compile(
-    pattern=rb"[\x1B\x9B\x9D](\s)?"  # Prefix ESC (^) or CSI (^[) or OSC (^)
+    # Prefix ESC only: the single byte (8 bit) forms of CSI/OSC, 0x9B/0x9D, are ordinary continuation
+    # bytes of UTF-8 text and must not be taken for the start of a control sequence
+    pattern=rb"\x1B(\s)?"
     rb"("
     rb"([78ME])"  # control cursor position
     rb"|"
